@@ -776,10 +776,14 @@ class Session(object):
         if self.excluded:
             return None
         os.chdir(self.dir)
+        res = None
         try:
-            return getattr(self, "op_" + op["op"])(op)
+            res = getattr(self, "op_" + op["op"])(op)
+            return res
         finally:
             os.chdir(self.base)
+            if res is not None and not res.ok:      # the session ends here: finish() will not be called
+                shutil.rmtree(self.dir, ignore_errors=True)
 
     def op_save(self, op):
         rname = op["r"]
